@@ -88,7 +88,10 @@ class Ctx:
         """Record a violation.  key names the input class (matched against
         known_findings.json); found_input=False => no-failing-input-found."""
         n = len(self.violations)
-        if n >= 8:          # enough replays; keep counting
+        same = sum(1 for v in self.violations if v["key"] == key)
+        # one replay per named input class (so that a listed finding cannot crowd out a different violation),
+        # at most 8 for unnamed ones; keep counting the rest
+        if same >= (8 if key is None else 1) and found_input:
             self.extra["violations_not_listed"] = self.extra.get("violations_not_listed", 0) + 1
             return
         path = os.path.join(self.replays, f"{self.pid}_{n}.json")
